@@ -74,6 +74,8 @@ def show_rat(x) -> str:
     if isinstance(x, float) or isinstance(x, np.floating):
         if x != x:
             return "nan"
+        if x in (float("inf"), float("-inf")):
+            return "inf" if x > 0 else "-inf"
     f = frac(x)
     return f"{f.numerator}/{f.denominator}"
 
